@@ -94,6 +94,9 @@ func TestVerif_C17(t *testing.T) {
 	for ep := 0; ep < evid.Pick(10, 300) && rec.Violations() < 30; ep++ {
 		vfC17CloseUnderLoad(rec, ep)
 	}
+	for ep := 0; ep < evid.Pick(1, 6) && rec.Violations() < 30; ep++ {
+		vfC17OverlappingStops(rec, ep)
+	}
 	// every server of this run has been stopped: no accept / connection / cleanup goroutine may remain
 	left := vfAbsnfsGoroutines("acceptLoop", "handleConnectionLoop", "idleConnectionCleanupLoop")
 	if len(left) > 0 {
@@ -692,5 +695,119 @@ func vfC17CloseUnderLoad(rec *evid.Rec, ep int) {
 	rec.Distinct(fmt.Sprintf("shutdown-under-load|%s|clients=%d", how, okc))
 	if how == "Unexport" {
 		n.Close()
+	}
+}
+
+// vfC17OverlappingStops: "after Server.Stop returns, no connection is served and no connection
+// goroutine remains" holds for EVERY call of Stop that reports success - also for a second call that
+// overlaps the first, or follows one that gave up. A request is parked inside the backend, so its
+// connection goroutine provably still exists while the gate is closed: a Stop that returns nil
+// during that time has returned too early. (A Stop that reports an error claims nothing.)
+func vfC17OverlappingStops(rec *evid.Rec, ep int) {
+	fs := refs.New()
+	fs.PlantFile("/slow", []byte("x"), 0644, 0, 0)
+	srv, err := vfNewSrv(fs, ExportOptions{AttrCacheTimeout: 1})
+	if err != nil {
+		rec.Infra(err.Error())
+		return
+	}
+	defer srv.Close()
+	if err := srv.srv.Listen(); err != nil {
+		rec.Inconclusive(1)
+		return
+	}
+	port := srv.srv.GetPort()
+	conn, err := vfDialRM(port)
+	if err != nil {
+		rec.Inconclusive(1)
+		srv.srv.Stop()
+		return
+	}
+	defer conn.c.Close()
+	raw, closed, err := conn.call(vfProgMount, 1, (&xdrw.W{}).Str("/").B)
+	if err != nil || closed {
+		rec.Inconclusive(1)
+		srv.srv.Stop()
+		return
+	}
+	rep, _ := rfc.DecodeReply(raw)
+	m, _ := rfc.DecodeMount(1, rep.Body)
+	root := vfFH(m.FH)
+	parked, open := make(chan struct{}), make(chan struct{})
+	var gateOpen atomic.Bool
+	var once sync.Once
+	fs.SetHook(func(op *refs.Op, ph refs.Phase) error {
+		if ph == refs.Before && op.Name == "Lstat" && op.Path == "/slow" {
+			first := false
+			once.Do(func() { first = true })
+			if first {
+				close(parked)
+				<-open
+			}
+		}
+		return nil
+	})
+	go conn.call(vfProgNFS, 3, xdrw.ArgDirop(root, "slow")) // LOOKUP, parked inside the backend
+	select {
+	case <-parked:
+	case <-time.After(20 * time.Second):
+		rec.Inconclusive(1)
+		gateOpen.Store(true)
+		close(open)
+		srv.srv.Stop()
+		return
+	}
+	type res struct {
+		which     string
+		err       error
+		whileOpen bool
+	}
+	out := make(chan res, 3)
+	stop := func(which string) {
+		err := srv.srv.Stop()
+		out <- res{which, err, gateOpen.Load()}
+	}
+	go stop("first")
+	// the second call starts once the first is under way (the server's context is cancelled)
+	select {
+	case <-srv.srv.ctx.Done():
+	case <-time.After(10 * time.Second):
+	}
+	go stop("second-overlapping")
+	var got []res
+	for len(got) < 2 {
+		select {
+		case r := <-out:
+			got = append(got, r)
+		case <-time.After(30 * time.Second):
+			rec.Inconclusive(1)
+			gateOpen.Store(true)
+			close(open)
+			return
+		}
+	}
+	// a third call after the first two have given up or returned, the request still parked
+	go stop("third-after-the-others")
+	select {
+	case r := <-out:
+		got = append(got, r)
+	case <-time.After(30 * time.Second):
+		rec.Inconclusive(1)
+	}
+	for _, r := range got {
+		rec.Eval(1)
+		if r.err == nil && !r.whileOpen {
+			rec.Violate("C17/stop-returned-success-while-a-connection-goroutine-remains/call="+r.which, fmt.Sprintf("Stop (%s call) returned nil while a request of an accepted connection was still inside the backend: its connection goroutine still exists", r.which), nil)
+		}
+		rec.Distinct(fmt.Sprintf("overlapping-stops|%s|nil=%v", r.which, r.err == nil))
+	}
+	gateOpen.Store(true)
+	close(open)
+	// now everything can finish; a final Stop must succeed
+	if err := srv.srv.Stop(); err != nil {
+		time.Sleep(200 * time.Millisecond)
+		if err := srv.srv.Stop(); err != nil {
+			rec.Inconclusive(1)
+		}
 	}
 }
